@@ -255,6 +255,10 @@ def build(rng, scale=1):
     # ---- valSwap ------------------------------------------------------------------------
     for a, b in [("x", "y"), ("e.I0", "e.I1"), ("e.P.A", "e.P.B"), ("e.Xs[0]", "e.Xs[1]"), ("e.Xs[e.Ti(0)]", "e.Xs[e.Ti(1)]"), ("*p", "*q")]:
         g.add("valswap", "p, q := &x, &y\n\t_, _ = p, q\n\ttmp := %s\n\t%s = %s\n\t%s = tmp\n\treturn out(x, y, e.I0, e.I1, e.P.A, e.P.B, e.Xs)" % (a, a, b, b), PRE_INT)
+    # operands that depend on each other: the parallel assignment evaluates index operands first
+    g.add("valswap-dependent", "a := []int{1, 0, 7}\n\ti := e.I0 & 1\n\ttmp := i\n\ti = a[i]\n\ta[i] = tmp\n\treturn out(a, i)")
+    g.add("valswap-dependent", "a := []int{2, 0, 1}\n\ti := 0\n\ttmp := a[i]\n\ta[i] = i\n\ti = tmp\n\treturn out(a, i)")
+    g.add("valswap-dependent", "p := e.P\n\ttmp := p\n\tp = p.Next\n\tp.Next = tmp\n\treturn out(p == e.P, tmp == e.P)"[:0] or "a := []int{1, 2, 0}\n\ti, j := 0, 1\n\ttmp := a[i]\n\ta[i] = a[j]\n\ta[j] = tmp\n\treturn out(a, i, j)")
     g.add("valswap-used", "tmp := x\n\tx = y\n\ty = tmp\n\treturn out(x, y, tmp)", PRE_INT)
     g.add("valswap-between", "tmp := x\n\te.t(\"mid\")\n\tx = y\n\ty = tmp\n\treturn out(x, y)", PRE_INT)
     # ---- switchTrue ---------------------------------------------------------------------
